@@ -382,14 +382,14 @@ def gen_sequence(rng, n, kind, grid_pos, pools, motifs, emulator):
         for pool, w in ((stored, 0.5), (dups, 0.4), (cnz, 0.6), (cz, 1.0)):
             if pool and rng.random() < w:
                 return rng.choice(pool)
-        return rng.choice(stored or cnz or cz)
+        return rng.choice(stored or dups or cnz or cz)
 
     def tr():
         return rng.choice(special) if rng.random() < 0.7 else rng.randrange(n)
 
     def some_fields():
         fs = rng.sample(stored + dups, rng.randint(1, min(3, len(stored + dups)))) if stored else [fld()]
-        return fs + ([rng.choice(cnz + cz)] if rng.random() < 0.3 else [])
+        return fs + ([rng.choice(cnz + cz)] if (cnz or cz) and rng.random() < 0.3 else [])
 
     f1, f2 = fld(), fld()
     all_motifs = {
@@ -505,7 +505,8 @@ def sequence_checks(inp, p, label, mode, E, reference, n, kind, shape, grid_pos,
     import seismic_zfp
     rng = random.Random(f'{a.seed}:{label}:{mode}:sequences')       # own stream: the cases above do not depend on it
     pools = seq_pools(template)
-    rounds = 1 if QUICK and not a.search else 3
+    rounds = (1 if QUICK and not a.search else 3) * (2 if kind == 'irregular' else 1)
+    t0 = time.time()
     for rd in range(rounds):
         motifs = rng.sample(SEQ_MOTIFS, len(SEQ_MOTIFS))
         for who, ms in (('SgzReader', motifs[:3]), ('SgzReader', motifs[3:]), ('seismic_zfp.open', rng.sample(motifs, 3))):
@@ -522,6 +523,7 @@ def sequence_checks(inp, p, label, mode, E, reference, n, kind, shape, grid_pos,
                 R.violation('oracle', dict(inp, check='sequence on one ' + who, reference=reference, motifs=ms,
                                            sequence=[op[:-1] for op in ops[:res[0]]], memo_padding_after_each=[op[-1] for op in ops[:res[0]]]),
                             f'call {res[0]} of a sequence on one {who} object differs from the {reference}: {res[1]}')
+    R.count('sequence_wall_ms', int(1000 * (time.time() - t0)))
 
 
 # ------------------------------------------------------------------------------------------------ SEG-Y cases
